@@ -38,6 +38,11 @@ pub struct Case {
     /// (state that is accidentally shared between pipe instances only shows with two of them alive)
     #[serde(default)]
     pub second_pipe: Option<(u8, usize)>,
+    /// robustness class outside the statement's sequences: the upstream iterator is not fused, it
+    /// answers None once in front of this item and then goes on (the crate's inference loader
+    /// builds such a source when a line is invalid)
+    #[serde(default)]
+    pub gap_at: Option<usize>,
 }
 
 pub fn tag(x: usize) -> u64 {
@@ -47,6 +52,8 @@ pub fn tag(x: usize) -> u64 {
 pub struct Source {
     pub i: usize,
     pub n: usize,
+    /// non-fused source: answers None once in front of this item and then goes on
+    pub gap: Option<usize>,
     pub pulled: Arc<AtomicUsize>,
     pub dropped: Arc<AtomicBool>,
     pub slow: Vec<(usize, u32)>,
@@ -56,6 +63,10 @@ impl Iterator for Source {
     type Item = usize;
     fn next(&mut self) -> Option<usize> {
         if self.i >= self.n {
+            return None;
+        }
+        if self.gap == Some(self.i) {
+            self.gap = None;
             return None;
         }
         let v = self.i;
@@ -172,6 +183,7 @@ impl Prop for C05 {
                 pause_us: 0,
                 slow_src: vec![],
                 second_pipe: None,
+                gap_at: None,
             };
         }
         if lane == "stall" {
@@ -198,6 +210,7 @@ impl Prop for C05 {
                 pause_us: 0,
                 slow_src: if in_upstream { vec![(at, stall_us)] } else { vec![] },
                 second_pipe: None,
+                gap_at: None,
             };
         }
         if lane == "sched" {
@@ -238,6 +251,7 @@ impl Prop for C05 {
                 } else {
                     None
                 },
+                gap_at: None,
             }
         } else if lane == "long" {
             let threads = *[2u8, 3, 4, 4, 8].get(rng.random_range(0..5)).unwrap();
@@ -264,6 +278,7 @@ impl Prop for C05 {
                 pause_us: 0,
                 slow_src: vec![],
                 second_pipe: None,
+                gap_at: None,
             }
         } else {
             let threads = *[0u8, 1, 2, 2, 3, 4, 4, 8, 16, 64]
@@ -320,6 +335,11 @@ impl Prop for C05 {
                 } else {
                     None
                 },
+                gap_at: if n >= 3 && rng.random_range(0..25) == 0 {
+                    Some(rng.random_range(1..n))
+                } else {
+                    None
+                },
             }
         }
     }
@@ -346,6 +366,7 @@ impl Prop for C05 {
             pulled: pulled.clone(),
             dropped: dropped.clone(),
             slow: c.slow_src.clone(),
+            gap: c.gap_at,
         };
         let counts2 = counts.clone();
         let slow = c.slow.clone();
@@ -492,8 +513,8 @@ impl Prop for C05 {
         if let Some(d) = stuck {
             if !d.is_empty() {
                 obs.fail(
-                    "deadlock",
-                    format!("W={} n={} {:?}: {d}", c.threads, c.n, c.strategy),
+                    if c.gap_at.is_some() { "non-fused-source/deadlock" } else { "deadlock" },
+                    format!("W={} n={} {:?} gap_at={:?}: {d}", c.threads, c.n, c.strategy, c.gap_at),
                 );
             }
             // the consumer (and workers) are stuck for good: ask for a fresh worker process
@@ -506,6 +527,34 @@ impl Prop for C05 {
             return;
         };
         let expect: Vec<u64> = (0..c.n).map(tag).collect();
+        if let Some(g) = c.gap_at {
+            // outside the statement: only what every reading of "sequential map" implies is judged
+            // (the iteration ended instead of hanging, and what came out is an ordered subsequence
+            // of the mapped input without duplicates)
+            obs.tag("non-fused-source");
+            let mut pos = 0usize;
+            let ordered = r.out.iter().all(|t| match expect[pos..].iter().position(|e| e == t) {
+                Some(k) => {
+                    pos += k + 1;
+                    true
+                }
+                None => false,
+            });
+            obs.check(ordered, "non-fused-source/output-not-an-ordered-subsequence", || {
+                format!(
+                    "W={} n={} gap before item {g}: got {} items, first 12 {:?}",
+                    c.threads,
+                    c.n,
+                    r.out.len(),
+                    &r.out[..r.out.len().min(12)]
+                )
+            });
+            obs.tag_if(r.out.len() == c.n, "non-fused-source/all-items-delivered");
+            if let Some(h) = second {
+                let _ = h.join();
+            }
+            return;
+        }
         if r.out != expect {
             let lost = expect.iter().filter(|t| !r.out.contains(t)).count();
             let dup = r.out.len() + lost - expect.len().min(r.out.len() + lost);
@@ -618,6 +667,7 @@ fn check_plain(c: &Case, obs: &mut Obs) {
         pulled: pulled.clone(),
         dropped: dropped.clone(),
         slow: vec![],
+        gap: None,
     };
     let counts2 = counts.clone();
     let f: text_utils::data::Pipeline<usize, u64> = Arc::new(move |x: usize| {
